@@ -321,7 +321,11 @@ func cmdCheck(args []string) {
 		nObl++
 		if x.OK {
 			nDis++
-			backends["ssa-scan"]++
+			if strings.HasPrefix(x.Name, "lean:") {
+				backends["lean4"]++
+			} else {
+				backends["ssa-scan"]++
+			}
 			if len(samples) < 8 {
 				samples = append(samples, map[string]interface{}{"obligation": x.Name, "kind": "ssa-scan", "what": x.What})
 			}
